@@ -304,6 +304,10 @@ func (fv *FuncVC) uncontractedCall(f *ssa.Function, cc *ssa.CallCommon, args []V
 		fv.logResults(tracked, idx, res)
 	}
 	if fv.P.inModule(f) {
+		if fv.helpers == nil {
+			fv.helpers = map[string]bool{}
+		}
+		fv.helpers[shortFn(f)] = true
 		fv.unmodelled["call to "+shortFn(f)+" without contract: result arbitrary, effects over-approximated from its body"] = true
 	} else {
 		fv.unmodelled["library call "+f.String()+" without assumed contract: result arbitrary"] = true
